@@ -30,7 +30,7 @@ from .errors import ExecutionError, UnrecognizedService, AbortException, RejectE
 from .apdu import confirmed_request_types, unconfirmed_request_types, \
     ConfirmedServiceChoice, UnconfirmedServiceChoice, \
     IAmRequest
-from .basetypes import ServicesSupported
+from .basetypes import ServicesSupported, Segmentation
 
 # basic services
 from .service.device import WhoIsIAmServices
@@ -102,6 +102,12 @@ class DeviceInfoCache:
         # make sure the apdu is an I-Am
         if not isinstance(apdu, IAmRequest):
             raise ValueError("not an IAmRequest: %r" % (apdu,))
+
+        # an announcement with an undefined segmentation value is corrupt,
+        # it must not replace what is known about the device (the state
+        # machines only understand the four defined values)
+        if apdu.segmentationSupported not in Segmentation.enumerations:
+            raise ValueError("invalid segmentation supported: %r" % (apdu.segmentationSupported,))
 
         # get the device instance
         device_instance = apdu.iAmDeviceIdentifier[1]
